@@ -363,6 +363,7 @@ func (w *World) NewInstance(name string) *Instance {
 // alive at that moment.
 func (inst *Instance) Open() error {
 	w := inst.W
+	w.S.FreeWriterLock()
 	create := inst.Opens == 0
 	inst.Opens++
 	inner, err := ldb.OpenWithStorage(inst.Disk, create, w.Knobs.WriteBuffer, 0)
